@@ -25,6 +25,9 @@ type Job struct {
 	ToGoHTML      bool      `json:"to_go_html,omitempty"`
 	B64           bool      `json:"b64,omitempty"`     // Args.S1, S2, XS are base64 (byte-exact transport)
 	Overlap       bool      `json:"overlap,omitempty"` // two renders of the program overlap on one processor (see the runner)
+	// RuntimeBuf: Render is handed a buffer the caller took from templ's runtime (GetBuffer) around
+	// the destination, released after the render.
+	RuntimeBuf bool `json:"runtime_buf,omitempty"`
 }
 
 // Bytes returns a job without faults whose string arguments reach the program byte for byte
